@@ -7,6 +7,7 @@ import (
 
 	"github.com/RoaringBitmap/roaring"
 	segment "github.com/blugelabs/bluge_segment_api"
+	ice "github.com/blugelabs/ice/v2"
 )
 
 func mustBuild(t *testing.T, b Batch, mode uint32) segment.Segment {
@@ -324,6 +325,44 @@ func TestC18Regress(t *testing.T) {
 		}
 		if bm.GetCardinality() != want {
 			t.Fatalf("F10 %v: got %v", list, bm)
+		}
+	}
+}
+
+// F11: storage fails during the first (lazy) FST load; the next dictionary
+// call must return instead of blocking on the segment's mutex.
+func TestC19Regress(t *testing.T) {
+	ctx := &Ctx{}
+	defer ctx.Close()
+	b := Batch{{Fields: []Field{{Name: "b", Len: 1, Terms: []Term{{T: "b", Freq: 1}}}, {Name: "title", Len: 1, Terms: []Term{{T: "", Freq: 1}}}}}}
+	bs, err := Persist(mustBuild(t, b, 1024))
+	if err != nil {
+		t.Fatal(err)
+	}
+	f, err := ctx.writeTemp(bs)
+	if err != nil {
+		t.Fatal(err)
+	}
+	d, fr, err := faultData(f)
+	if err != nil {
+		t.Fatal(err)
+	}
+	seg, err := ice.Load(d)
+	if err != nil {
+		t.Fatal(err)
+	}
+	fr.arm(0)
+	env := &ropEnv{seg: seg, dvr: map[string]segment.DocumentValueReader{}}
+	for i, o := range []rop{{kind: 1, field: "b", term: "b"}, {kind: 1, field: "title", term: ""}, {kind: 0, field: "b"}} {
+		res, err, blocked, infra := runGuarded(o, env)
+		if infra != "" {
+			t.Fatalf("INFRA: %s", infra)
+		}
+		if blocked {
+			t.Fatalf("F11: call #%d %s blocked on a mutex inside ice:\n%s", i, o, res)
+		}
+		if err == nil && res != "" {
+			t.Fatalf("F11: call #%d %s returned %q although every read fails", i, o, res)
 		}
 	}
 }
